@@ -202,8 +202,10 @@ NegSure(v) == \E j \in 1..NS : UnitsOf(v, j) < -BandZero
 NonNeg(v) == ~NegSure(v)
 
 \* element / charge totals: |SUM_j B_kj (v_j - c0_j)| <= 1e-6 * SUM_j |B_kj| c0_j  (+ rounding)
-BandTot(k) == SumSeq([j \in 1..NS |-> AbsI(sys.B[k][j]) * (AbsI(c0.h[j]) + 1)]) + RowSum(sys.B[k]) + 2
-KeepsTotals(v) == \A k \in 1..Len(sys.B) : AbsI(LinDiff(sys.B[k], v, sys.B[k], c0)) <= BandTot(k)
+\* (the terms that are summed set the scale: those of the initial state and those of the result - ions that
+\*  start at exactly zero still give a charge total formed from finite terms)
+BandTot(k, v) == SumSeq([j \in 1..NS |-> AbsI(sys.B[k][j]) * (AbsI(c0.h[j]) + AbsI(v.h[j]) + 1)]) + RowSum(sys.B[k]) + 2
+KeepsTotals(v) == \A k \in 1..Len(sys.B) : AbsI(LinDiff(sys.B[k], v, sys.B[k], c0)) <= BandTot(k, v)
 
 \* upper bound of species j from element k (not charge): B_kj v_j <= T_k (1 + 1e-9)
 ElemRows == {k \in 1..Len(sys.B) : sys.ks[k] # 0}
